@@ -167,6 +167,44 @@ func checkC12(p *Prog, r *Result, tier string) {
 	if nre == 0 {
 		r.Report("C12.R2", "-", "pattern compile sites", Undecided, "no regexp.Compile site found", "", nil, false)
 	}
+	// every successful result of the scan evaluator is built after the arguments were validated: each call of the
+	// Search constructor in an evaluator that owns an operator guard is dominated by the guard's first comparison
+	for _, ef := range evals {
+		var head *ssa.BasicBlock
+		for _, b := range ef.DomPreorder() {
+			for _, in := range b.Instrs {
+				if bo, ok := in.(*ssa.BinOp); ok && bo.Op == token.EQL && head == nil {
+					if _, isP := bo.X.(*ssa.Parameter); isP {
+						if _, ok := constString(bo.Y); ok {
+							head = b
+						}
+					}
+				}
+			}
+		}
+		if head == nil {
+			continue
+		}
+		for _, b := range ef.Blocks {
+			for _, in := range b.Instrs {
+				call, ok := in.(*ssa.Call)
+				if !ok {
+					continue
+				}
+				g := call.Call.StaticCallee()
+				if g == nil || !inSod(p, g) || g.Signature.Recv() != nil || g.Signature.Results().Len() != 1 || named(g.Signature.Results().At(0).Type()) != a.Search {
+					continue
+				}
+				construct := "result built only after argument validation"
+				if head == b || head.Dominates(b) {
+					r.Report("C12.R2", FuncName(ef), construct, Discharged, "", p.Pos(in.Pos()), nil, true)
+				} else {
+					r.Report("C12.R2", FuncName(ef), construct, Violated, "the evaluator can return a successful result on a path that never validated the operator and the pattern: an invalid query succeeds here while the other evaluator reports an error", p.Pos(in.Pos()), nil, true)
+				}
+			}
+		}
+	}
+
 	// the scan comparator's default arm (panic on an unknown operator) must be unreachable from the API:
 	// every caller validates the operator against the same literal set first and reports the sentinel
 	for _, fn := range p.Funcs {
@@ -406,6 +444,8 @@ func init() { register("C12", checkC12) }
 
 func checkC05(p *Prog, r *Result, tier string) {
 	r.Rule("C05.R1", "atomic replace: no successful return of a handle entry point (or flusher iteration) leaves a persistent file (object or schema) that was opened for writing without a subsequent rename: persistent files are replaced by write-to-temporary + rename, never truncated in place", 1)
+	r.Rule("C05.R4", "the content is complete before the rename: the writer (and the compressor, when there is one) is closed on every path before the temporary file is renamed to its final name", 1)
+	r.Rule("C05.R5", "a temporary file left behind by a crash is harmless: its name is in the same directory as the final file and is not taken for an object file by the discovery function (finite evaluation; shared with C18.R4)", 2)
 	r.Rule("C05.R2", "acknowledged => reflected (synchronous mode): shared with C04.R1 (commit before successful return) and C01.R1 (object written before successful return); re-evaluated here for the write entries", 2)
 	r.Rule("C05.R3", "control can notice content divergence: the schema control reads object content (or index+object replacement is a single rename)", 1)
 	r.NotDecided = []string{"enumeration of crash prefixes of every history (a runtime quantifier): only the three structural necessary conditions above are decided", "torn-write behaviour inside a single write system call"}
@@ -423,13 +463,30 @@ func checkC05(p *Prog, r *Result, tier string) {
 			r.Entries = append(r.Entries, FuncName(f))
 		}
 	}
-	exploreAll(p, c, jobs, effs(EUnrenamed, EFsWObj, EFsWSchema, EFsRename), r, func(j exploreJob) Listener {
+	exploreAll(p, c, jobs, effs(EUnrenamed, EFsWObj, EFsWSchema, EFsRename, EGzipWriter, ECloseIface, ECloseFile), r, func(j exploreJob) Listener {
 		return &effListener{p: p, r: r, root: j.root, val: j.val,
 			onEvent: func(l *effListener, x *Explorer, st *State, ev *Event) {
 				switch {
 				case ev.Kind == EvEffect && (ev.Eff == EFsWObj || ev.Eff == EFsWSchema):
 					// remember the depth of the function that opened the file (low 8 bits) and the site
-					st.User = uint64(len(st.frames))&0xff | uint64(ev.Instr.Pos())<<8
+					st.User = uint64(len(st.frames))&0xff | (uint64(ev.Instr.Pos())<<8)&(1<<56-1)
+				case ev.Kind == EvEffect && ev.Eff == EGzipWriter && st.User != 0:
+					st.User |= 1 << 62
+				case ev.Kind == EvEffect && ev.Eff == ECloseIface && st.User != 0:
+					st.User |= 1 << 61
+				case ev.Kind == EvEffect && ev.Eff == ECloseFile && st.User != 0:
+					st.User |= 1 << 60
+				case ev.Kind == EvEffect && ev.Eff == EFsRename && st.User != 0:
+					fn := FuncName(st.top().fn)
+					gz, ci, cf := st.User&(1<<62) != 0, st.User&(1<<61) != 0, st.User&(1<<60) != 0
+					switch {
+					case gz && !ci:
+						l.bad("C05.R4", fn, "content complete before the rename", "a compressed file is renamed to its final name before the gzip writer was closed: the final name briefly (or, after a crash, for ever) holds only the gzip header", l.p.Pos(ev.Instr.Pos()), x, st, ev.Instr)
+					case !ci && !cf:
+						l.bad("C05.R4", fn, "content complete before the rename", "the temporary file is renamed to its final name before it was closed", l.p.Pos(ev.Instr.Pos()), x, st, ev.Instr)
+					default:
+						l.ok("C05.R4", fn, "content complete before the rename", l.p.Pos(ev.Instr.Pos()))
+					}
 				case ev.Kind == EvCallRet && st.User != 0 && uint64(len(st.frames)+1)&0xff == st.User&0xff:
 					// the function that opened the persistent file returns
 					errNil := triYes
@@ -438,7 +495,7 @@ func checkC05(p *Prog, r *Result, tier string) {
 							errNil = ev.Results[i].Nil
 						}
 					}
-					where := l.p.Pos(token.Pos(st.User >> 8))
+					where := l.p.Pos(token.Pos((st.User & (1<<56 - 1)) >> 8))
 					fn := FuncName(ev.Callee)
 					if errNil != triNo {
 						if st.may.Has(EUnrenamed) {
@@ -466,6 +523,16 @@ func checkC05(p *Prog, r *Result, tier string) {
 			}
 		}}
 	}, nil)
+
+	// R5
+	sub := NewResult("C05")
+	checkDiscovery(p, sub, "C18.R4", "C05.R5")
+	for _, o := range sub.Obligations() {
+		if o.Rule == "C05.R5" {
+			r.Report("C05.R5", o.Func, o.Construct, o.Status, o.Detail, o.Where, o.Trace, true)
+		}
+	}
+	r.Evaluations += sub.Evaluations
 
 	// R3
 	if ctl := p.FuncByName("Schema.control"); ctl != nil {
